@@ -11,7 +11,7 @@ VARIABLES b, f, arg, calls, st, done, res
 vars == <<b, f, arg, calls, st, done, res>>
 D1 == <<"d1">>  D2 == <<"d1", "d2">>
 C(m) == [m |-> m]
-TypesOf(form) == IF form = "M" THEN {"u8", "String", "PhantomData<u8>", "Box<PhantomData<()>>"} ELSE {0, 7}
+TypesOf(form) == IF form = "M" THEN {"u8", "String", "PhantomData<u8>", "Box<PhantomData<()>>", "std::sync::Arc<PhantomData<u8>>"} ELSE {0, 7}
 DocCalls(form) == IF form = "M" THEN {[m |-> "docs", d |-> D1], [m |-> "docs_always", d |-> D2]} ELSE {[m |-> "docs_portable", d |-> D1]}
 FBCalls(form) == {[m |-> "name", n |-> n] : n \in {"a", "b"}} \cup {[m |-> "ty", t |-> t] : t \in TypesOf(form)}
                  \cup (IF form = "M" THEN {[m |-> "compact", t |-> "u32"]} ELSE {})
